@@ -26,6 +26,9 @@ type aval struct {
 type aenv struct {
 	info *types.Info
 	vars map[types.Object]aval
+	// hook may supply values for expressions the evaluator does not model
+	// (element loads, len(...) of runtime data)
+	hook func(e ast.Expr) (aval, bool)
 }
 
 type evalErr struct{ msg string }
@@ -49,6 +52,11 @@ func (env *aenv) eval(e ast.Expr) aval {
 				v, _ := constant.Int64Val(iv)
 				return aval{i: v}
 			}
+		}
+	}
+	if env.hook != nil {
+		if v, ok := env.hook(e); ok {
+			return v
 		}
 	}
 	switch e := e.(type) {
